@@ -1,69 +1,250 @@
 /- C07 driver: op lines in, observable lines out (same format as props/C07/harness.cpp).
 
-Line syntax: `[F] <op> …`.  A request for `new[]` succeeds iff it is at most `allocLimit` bytes (the
+Line syntax: `[F|F<k>] <op> …`.  A request for `new[]` succeeds iff it is at most `allocLimit` bytes (the
 harness's interposed `operator new[]` does the same).  A leading `F` first runs the operation with an
-allocator that refuses everything; if that attempt reports failure it must have been a no-op
+allocator that refuses everything, `F<k>` with one that refuses exactly the k-th request made inside the
+operation (composite operations make several); if that attempt reports failure it must have been a no-op
 (`keep=1`), and the operation is then run again with the working allocator — so the state lines do
 not depend on whether the capacity policy needed an allocation (that is in the `M` line).  Per operation: a `B` line (branch tags), a state line (`P`, or
-`M` once the case has over-committed or appended from its own storage: the content then depends on
-the capacity policy) and an `M` line
+`M` once the case has over-committed, appended from its own storage or used a size derived from the
+writable size: the content then depends on the capacity policy) and an `M` line
 with what a harmless rewrite may change (how a failure was reported, allocator traffic,
-writable size, live blocks). -/
+writable size, live blocks).
+
+Sizes may be state-derived: `@rs`, `@ws` (readable / writable size of the buffer the op names — of the
+SOURCE buffer for `appo`), optionally `+K` / `-K` (saturating at 0).  Payloads are hex or `%<n>:<seed>`
+(synthetic, `Tbox.C07.pattern`).  Composite lines (`rt i` = `{ Buffer c(b); b = c; }`, `rtm i d` =
+`{ Buffer c(b); c.append(d); b = std::move(c); }`) are executed as `Tbox.C07.runScript` with the temporary
+in the hidden slot 4.
+
+Two executable models: the list model (`Tbox.C07.step`, the one the theorems speak about) and, after a
+`fast` line, the ByteArray model (`Tbox.C07.stepA`, proved equal: `C07_array_refines`).  `quiet` replaces
+the contents in the state lines by their lengths (`dig i` prints a digest on demand). -/
 import TboxModel.Util
-import TboxModel.C07.Model
+import TboxModel.C07.Fast
 open Tbox.Util Tbox.C07
 
 /-- the harness's allocator refuses requests above 16 MiB -/
 def allocLimit : Nat := 16777216
+/-- largest synthetic payload -/
+def patLimit : Nat := 16777216
+/-- the temporary of composite operations -/
+def tmpSlot : Nat := 4
+
+def okAl : Alloc := fun sz => sz ≤ allocLimit
+def noAl : Alloc := fun _ => false
+
+/-- payload of an operation line -/
+inductive Payload where
+  | hex (d : List Byte)
+  | pat (n seed : Nat)
+
+def Payload.length : Payload → Nat
+  | .hex d => d.length
+  | .pat n _ => n
+def Payload.toList : Payload → List Byte
+  | .hex d => d
+  | .pat n seed => pattern seed n
+def Payload.toBytes : Payload → ByteArray
+  | .hex d => ⟨d.toArray⟩
+  | .pat n seed => patternA seed n
+
+/-- a parsed operation (payloads not yet materialised) -/
+inductive LOp where
+  | plain (op : Op)                         -- an operation without payload
+  | append (i : Nat) (d : Payload)
+  | rwc (i : Nat) (n : Nat) (d : Payload)
+
+def LOp.toOp : LOp → Op
+  | .plain op => op
+  | .append i d => .append i d.toList
+  | .rwc i n d => .rwc i n d.toList
+def LOp.toOpA : LOp → OpA
+  | .plain op => opAofOp op
+  | .append i d => .append i d.toBytes
+  | .rwc i n d => .rwc i n d.toBytes
+/-- the operation without its payload bytes (tags, slots) -/
+def LOp.shape : LOp → Op
+  | .plain op => op
+  | .append i d => .append i (List.replicate (min d.length 4) 0)
+  | .rwc i n _ => .rwc i n []
+
+/-- one line = a body of statements (cut short by an exception) and a clean-up -/
+structure Script where
+  body : List LOp
+  cleanup : List LOp := []
+
+/-- the result of one micro-step, model-independent -/
+structure LOut where
+  fetchedHex : String := "-"
+  ret : Nat := 0
+  st : Status := .ok
+  news : Nat := 0
+  dels : Nat := 0
+
+def hex64 (v : UInt64) : String :=
+  String.ofList ((List.range 16).reverse.map fun k => hexDigit ((v.toNat >>> (4 * k)) % 16))
+
+/-- fetched bytes: hex up to 64 bytes, digest beyond -/
+def outHexL (d : List Byte) : String :=
+  if d.length ≤ 64 then hexOfBytes d else "~" ++ hex64 (fnv d) ++ ":" ++ toString d.length
+def outHexA (d : ByteArray) : String :=
+  if d.size ≤ 64 then hexOfBytes d.data.toList else "~" ++ hex64 (fnvA d 0 d.size) ++ ":" ++ toString d.size
+
+def lout (o : Out) : LOut := { fetchedHex := outHexL o.fetched, ret := o.ret, st := o.st, news := o.news, dels := o.dels }
+def loutA (o : OutA) : LOut := { fetchedHex := outHexA o.fetched, ret := o.ret, st := o.st, news := o.news, dels := o.dels }
+
+/-- the two executable models behind one interface -/
+inductive Mach where
+  | list (s : Store)
+  | arr (s : StoreA)
+
+def Mach.init : Mach := .list (Tbox.C07.init ++ [Buf.empty])
+def Mach.toFast : Mach → Mach
+  | .list s => .arr (storeAofStore s)
+  | m => m
+
+def Mach.rs : Mach → Nat → Nat
+  | .list s, i => (s.get i).readableSize
+  | .arr s, i => (s.get i).readableSize
+def Mach.ws : Mach → Nat → Nat
+  | .list s, i => (s.get i).writable
+  | .arr s, i => (s.get i).writable
+def Mach.live : Mach → Nat
+  | .list s => (s.map Buf.owns).foldl (· + ·) 0
+  | .arr s => (s.toList.map BufA.owns).foldl (· + ·) 0
+def Mach.content : Mach → Nat → String
+  | .list s, i => hexOfBytes (s.get i).readable
+  | .arr s, i => hexOfBytes (s.get i).toBuf.readable
+def Mach.digest : Mach → Nat → UInt64
+  | .list s, i => fnv (s.get i).readable
+  | .arr s, i => (s.get i).digest
+/-- one statement with one allocator -/
+def Mach.step1 (al : Alloc) : Mach → LOp → Mach × LOut
+  | .list s, op => let (s', o) := step al s op.toOp; (.list s', lout o)
+  | .arr s, op => let (s', o) := stepA al s op.toOpA; (.arr s', loutA o)
+/-- a whole script with the allocators chosen for its statements: `runScript` / `runScriptA` -/
+def Mach.script (m : Mach) (body cleanup : List (Alloc × LOp)) : Mach × List LOut :=
+  match m with
+  | .list s =>
+      let (s', os) := runScript s (body.map fun (al, op) => (al, op.toOp)) (cleanup.map fun (al, op) => (al, op.toOp))
+      (.list s', os.map lout)
+  | .arr s =>
+      let (s', os) := runScriptA s (body.map fun (al, op) => (al, op.toOpA)) (cleanup.map fun (al, op) => (al, op.toOpA))
+      (.arr s', os.map loutA)
+
+/-- which requests fail during an attempt -/
+inductive Fault where
+  | none | all | kth (k : Nat)
+
+/-- allocator for the next statement, `made` requests having been made so far (a statement makes at most one) -/
+def Fault.alloc : Fault → Nat → Alloc
+  | .none, _ => okAl
+  | .all, _ => noAl
+  | .kth k, made => if made + 1 = k then noAl else okAl
+
+/-- choose the allocators statement by statement (the k-th REQUEST fails: which statement makes it depends
+on the run), then execute the script as ONE `runScript` with those allocators -/
+def Mach.exec (m : Mach) (f : Fault) (sc : Script) : Mach × List LOut :=
+  let als : List (Alloc × LOp) :=
+    match sc.body with
+    | [op] => [(f.alloc 0, op)]
+    | body =>
+        let rec go (m : Mach) (made : Nat) : List LOp → List (Alloc × LOp)
+          | [] => []
+          | op :: rest =>
+              let al := f.alloc made
+              let (m', o) := m.step1 al op
+              (al, op) :: (if o.st = .badAlloc then rest.map (fun op => (okAl, op)) else go m' (made + o.news) rest)
+        go m 0 body
+  m.script als (sc.cleanup.map fun op => (okAl, op))
 
 structure DState where
-  s : Store := init
-  tainted : Bool := false     -- an over-commit happened in this case
-
-def showStore (s : Store) : String :=
-  "|".intercalate (s.map fun b => hexOfBytes b.readable ++ ":" ++ toString b.readableSize)
-
-def slot? (w : String) : Option Nat := do
-  let i ← w.toNat?
-  if i < nSlots then some i else none
+  m : Mach := Mach.init
+  tainted : Bool := false     -- the state lines are model-internal from here on
+  quiet : Bool := false
 
 /-- a `size_t` literal -/
-def num? (w : String) : Option Nat := do
+def lit? (w : String) : Option Nat := do
   if w.length > 20 ∨ w.isEmpty ∨ !(w.all Char.isDigit) then none
   let n ← w.toNat?
   if n < W then some n else none
 
-def parseOp (ws : List String) : Option Op :=
-  match ws with
-  | ["ctor", i, c] => do pure (.construct (← slot? i) (← num? c))
-  | ["ctord", i] => do pure (.defaultCtor (← slot? i))
-  | ["app", i, d] => do pure (.append (← slot? i) (← bytesOfHex d))
+def slot? (w : String) : Option Nat := do
+  let i ← lit? w
+  if i < nSlots then some i else none
+
+/-- a size: literal, or `@rs` / `@ws` with an optional `+K` / `-K` (K a literal below 2^32) -/
+def num? (rs ws : Option Nat) (w : String) : Option Nat :=
+  if w.startsWith "@" then do
+    let body := (w.drop 1).toString
+    let base ← if body.startsWith "rs" then rs else if body.startsWith "ws" then ws else none
+    let rest := (body.drop 2).toString
+    if rest.isEmpty then some base
+    else do
+      let k ← lit? (rest.drop 1).toString
+      if k ≥ 4294967296 then none
+      else if rest.startsWith "+" then (if base + k < W then some (base + k) else none)
+      else if rest.startsWith "-" then some (base - k)
+      else none
+  else lit? w
+
+def payload? (rs ws : Option Nat) (w : String) : Option Payload :=
+  if w.startsWith "%" then
+    match ((w.drop 1).toString.splitOn ":") with
+    | [n, seed] => do
+        let n ← num? rs ws n
+        let seed ← lit? seed
+        if n ≤ patLimit ∧ seed < 4294967296 then some (.pat n seed) else none
+    | _ => none
+  else (bytesOfHex w).map .hex
+
+def parseLine (rs ws : Option Nat) (wds : List String) : Option Script :=
+  let N := num? rs ws
+  let one (op : Op) : Script := { body := [.plain op] }
+  match wds with
+  | ["ctor", i, c] => do pure (one (.construct (← slot? i) (← N c)))
+  | ["ctord", i] => do pure (one (.defaultCtor (← slot? i)))
+  | ["app", i, d] => do pure { body := [.append (← slot? i) (← payload? rs ws d)] }
   | ["appa", i, pl, d] => do
-      let p ← num? pl
-      if p < 16 then pure (.append (← slot? i) (← bytesOfHex d)) else none
-  | ["apps", i, off, k] => do pure (.appendSelf (← slot? i) (← num? off) (← num? k))
-  | ["res", i, n] => do pure (.reserve (← slot? i) (← num? n))
+      let p ← lit? pl
+      if p < 16 then pure { body := [.append (← slot? i) (← payload? rs ws d)] } else none
+  | ["apps", i, off, k] => do pure (one (.appendSelf (← slot? i) (← N off) (← N k)))
+  | ["appo", i, j, off, k] => do
+      let i ← slot? i; let j ← slot? j
+      if i = j then none else pure (one (.appendFrom i j (← N off) (← N k)))
+  | ["res", i, n] => do pure (one (.reserve (← slot? i) (← N n)))
   | ["rwc", i, n, d] => do
-      let n ← num? n; let d ← bytesOfHex d
-      if d.length ≤ n then pure (.rwc (← slot? i) n d) else none
-  | ["over", i, n] => do pure (.over (← slot? i) (← num? n))
-  | ["fetch", i, n] => do pure (.fetch (← slot? i) (← num? n))
+      let n ← N n; let d ← payload? rs ws d
+      if d.length ≤ n then pure { body := [.rwc (← slot? i) n d] } else none
+  | ["over", i, n] => do pure (one (.over (← slot? i) (← N n)))
+  | ["fetch", i, n] => do pure (one (.fetch (← slot? i) (← N n)))
   | ["fetcha", i, pl, n] => do
-      let p ← num? pl
-      if p < 16 then pure (.fetch (← slot? i) (← num? n)) else none
-  | ["con", i, n] => do pure (.consume (← slot? i) (← num? n))
-  | ["conall", i] => do pure (.consumeAll (← slot? i))
-  | ["shrink", i] => do pure (.shrink (← slot? i))
-  | ["cpa", d, s] => do pure (.copyAssign (← slot? d) (← slot? s))
-  | ["mva", d, s] => do pure (.moveAssign (← slot? d) (← slot? s))
+      let p ← lit? pl
+      if p < 16 then pure (one (.fetch (← slot? i) (← N n))) else none
+  | ["fetchw", i, n] => do pure (one (.fetchSelf (← slot? i) (← N n)))
+  | ["con", i, n] => do pure (one (.consume (← slot? i) (← N n)))
+  | ["conall", i] => do pure (one (.consumeAll (← slot? i)))
+  | ["shrink", i] => do pure (one (.shrink (← slot? i)))
+  | ["cpa", d, s] => do pure (one (.copyAssign (← slot? d) (← slot? s)))
+  | ["mva", d, s] => do pure (one (.moveAssign (← slot? d) (← slot? s)))
   | ["cpc", d, s] => do
       let d ← slot? d; let s ← slot? s
-      if d = s then none else pure (.copyCtor d s)
+      if d = s then none else pure (one (.copyCtor d s))
   | ["mvc", d, s] => do
       let d ← slot? d; let s ← slot? s
-      if d = s then none else pure (.moveCtor d s)
-  | ["swap", i, j] => do pure (.swap (← slot? i) (← slot? j))
-  | ["reset", i] => do pure (.reset (← slot? i))
+      if d = s then none else pure (one (.moveCtor d s))
+  | ["swap", i, j] => do pure (one (.swap (← slot? i) (← slot? j)))
+  | ["reset", i] => do pure (one (.reset (← slot? i)))
+  -- { Buffer c(b); b = c; }
+  | ["rt", i] => do
+      let i ← slot? i
+      pure { body := [.plain (.copyCtor tmpSlot i), .plain (.copyAssign i tmpSlot)], cleanup := [.plain (.reset tmpSlot)] }
+  -- { Buffer c(b); c.append(d); b = std::move(c); }
+  | ["rtm", i, d] => do
+      let i ← slot? i; let d ← payload? rs ws d
+      pure { body := [.plain (.copyCtor tmpSlot i), .append tmpSlot d, .plain (.moveAssign i tmpSlot)],
+             cleanup := [.plain (.reset tmpSlot)] }
   | _ => none
 
 def sizeTag (n : Nat) : String :=
@@ -71,7 +252,7 @@ def sizeTag (n : Nat) : String :=
   else if n ≥ 2147483648 then " n>=2^31" else if n ≥ 65536 then " n>=2^16" else ""
 
 def ensureTag (al : Alloc) (b : Buf) (n : Nat) : String :=
-  (if n = 0 then "ensure0" else if b.writable ≥ n then "enough"
+  (if n = 0 then "ensure0" else if b.writable ≥ n then (if b.writable = n then "enough-exact" else "enough")
   else if uadd b.writable b.r ≥ n then (if b.r > 0 ∧ b.w > b.r then "compact-nonempty" else "compact")
   else if b.w > maxHalf ∨ n > maxHalf - b.w then
     (if b.w + n ≥ W then "refused-sum-wraps" else "refused-double-wraps")
@@ -89,7 +270,14 @@ def cloneTag (al : Alloc) (o : Buf) : String :=
 def branchTags (al : Alloc) (s : Store) : Op → String
   | .append i d => ensureTag al (s.get i) d.length ++ (if d.length < 4 then " len<4" else "")
   | .appendSelf i off k =>
-      if off + k ≤ (s.get i).readableSize then "self-append " ++ ensureTag al (s.get i) k else "self-append-skip"
+      if off + k ≤ (s.get i).readableSize then
+        "self-append " ++ (if off = 0 ∧ k = (s.get i).readableSize ∧ k > 0 then "self-append-all " else "") ++ ensureTag al (s.get i) k
+      else "self-append-skip"
+  | .appendFrom i j off k =>
+      if off + k ≤ (s.get j).readableSize then "append-from-other " ++ ensureTag al (s.get i) k else "append-from-skip"
+  | .fetchSelf i n =>
+      "fetch-into-writable " ++ readTag (s.get i) n ++ " " ++
+        ensureTag al (s.get i) (if n > (s.get i).readableSize then (s.get i).readableSize else n)
   | .reserve i n => ensureTag al (s.get i) n
   | .rwc i n _ => ensureTag al (s.get i) n
   | .over _ n => "overcommit" ++ sizeTag n
@@ -106,11 +294,36 @@ def branchTags (al : Alloc) (s : Store) : Op → String
   | _ => "other"
 
 def firstSlot : Op → Nat
-  | .construct i _ | .defaultCtor i | .append i _ | .appendSelf i _ _ | .reserve i _ | .rwc i _ _
+  | .construct i _ | .defaultCtor i | .append i _ | .appendSelf i _ _ | .appendFrom i _ _ _ | .fetchSelf i _
+  | .reserve i _ | .rwc i _ _
   | .over i _ | .fetch i _ | .consume i _ | .consumeAll i | .shrink i | .reset i | .swap i _ => i
   | .copyAssign d _ | .moveAssign d _ | .copyCtor d _ | .moveCtor d _ => d
 
-def live (s : Store) : Nat := (s.map Buf.owns).foldl (· + ·) 0
+def showState (st : DState) (m : Mach) : String :=
+  "|".intercalate ((List.range nSlots).map fun i =>
+    (if st.quiet then "~" else m.content i) ++ ":" ++ toString (m.rs i))
+
+/-- aggregate of the statements of one line -/
+structure Agg where
+  ret : Nat := 0
+  out : String := "-"
+  how : Status := .ok
+  news : Nat := 0
+  dels : Nat := 0
+
+def aggregate (os : List LOut) : Agg :=
+  os.foldl (fun a o =>
+    { ret := if o.ret ≠ 0 then o.ret else a.ret,
+      out := if o.fetchedHex ≠ "-" then o.fetchedHex else a.out,
+      how := if a.how = .badAlloc ∨ o.st = .badAlloc then .badAlloc else if a.how = .refused ∨ o.st = .refused then .refused else .ok,
+      news := a.news + o.news, dels := a.dels + o.dels }) {}
+
+def parseFault (w : String) : Option Fault :=
+  if w = "F" then some .all
+  else if w.startsWith "F" then do
+    let k ← lit? (w.drop 1).toString
+    if k ≥ 1 ∧ k ≤ 9 then some (.kth k) else none
+  else none
 
 def stepLine (st : DState) (line : String) : DState × List String :=
   let ws := words line
@@ -119,37 +332,64 @@ def stepLine (st : DState) (line : String) : DState × List String :=
   | "case" :: _ => ({}, [line.trimAscii.toString])
   | ["teardown"] =>
       -- every buffer is destroyed (all blocks must be gone), then the slots are default-constructed again
-      ({ st with s := init }, ["P live=0"])
+      let m := match st.m with | .list _ => Mach.init | .arr _ => Mach.init.toFast
+      ({ st with m := m }, ["P live=0"])
+  | ["fast"] => ({ st with m := st.m.toFast }, ["P fast"])
+  | ["quiet"] => ({ st with quiet := true }, ["P quiet"])
+  | ["dig", i] =>
+      match slot? i with
+      | none => (st, ["bad-op"])
+      | some i => (st, [(if st.tainted then "M " else "P ") ++ "dig=" ++ hex64 (st.m.digest i) ++ " len=" ++ toString (st.m.rs i)])
   | _ =>
     let (fault, ws) := match ws with
-      | "F" :: rest => (true, rest)
-      | _ => (false, ws)
-    let al : Alloc := if fault then (fun _ => false) else (fun sz => sz ≤ allocLimit)
-    match parseOp ws with
+      | w :: rest => (match parseFault w with | some f => (f, rest) | none => (Fault.none, ws))
+      | [] => (Fault.none, ws)
+    -- the buffer whose sizes `@rs` / `@ws` refer to
+    let refSlot : Option Nat := match ws with
+      | "appo" :: _ :: j :: _ => slot? j
+      | _ :: i :: _ => slot? i
+      | _ => none
+    let m := st.m
+    match parseLine (refSlot.map (m.rs ·)) (refSlot.map (m.ws ·)) ws with
     | none => (st, ["bad-op"])
-    | some op =>
-      let s := st.s
-      -- `F op`: an attempt with a failing allocator; if it reports failure (a no-op: `C07_fail_noop`)
-      -- the operation is executed again with the working allocator
-      let okAl : Alloc := fun sz => sz ≤ allocLimit
-      let (s1, o1) := step al s op
-      let (s', o) := if fault ∧ o1.st ≠ .ok then
-          let (s2, o2) := step okAl s1 op
-          (s2, { o2 with news := o1.news + o2.news, dels := o1.dels + o2.dels })
-        else (s1, o1)
-      let keep := if fault ∧ o1.st ≠ .ok then (if showStore s1 = showStore s then "1" else "0") else "1"
-      let tainted := st.tainted || (match op with | .over _ _ => true | .appendSelf _ _ _ => true | _ => false)
+    | some sc =>
+      let isFault := match fault with | .none => false | _ => true
+      -- `F op`: an attempt with a failing allocator; if it reports failure (a no-op: `C07_fail_noop`,
+      -- `C07_roundtrip_strong`) the operation is executed again with the working allocator
+      let (m1, os1) := m.exec fault sc
+      let a1 := aggregate os1
+      let retry : Bool := isFault && decide (a1.how ≠ .ok)
+      let (m', a) := if retry then
+          let (m2, os2) := m1.exec .none sc
+          let a2 := aggregate os2
+          (m2, { a2 with news := a1.news + a2.news, dels := a1.dels + a2.dels })
+        else (m1, a1)
+      let keep := if retry then (if showState { st with quiet := false } m1 = showState { st with quiet := false } m then "1" else "0") else "1"
+      let shape := match sc.body with | [op] => op.shape | _ => .reset tmpSlot
+      let usesWs := ws.any (fun w => (w.splitOn "@ws").length > 1)
+      let tainted := st.tainted || (match shape with | .over _ _ => true | .appendSelf _ _ _ => true | _ => false)
+        || (usesWs && ws.head? != some "res")
       -- after an over-commit the content depends on the capacity (an implementation detail)
       let tag := if tainted then "M " else "P "
-      let wr := match op with
-        | .reserve i n => if o.st = .ok then (if (s'.get i).writable ≥ n then " wr=1" else " wr=0") else ""
+      let wr := match shape with
+        | .reserve i n => if a.how = .ok then (if m'.ws i ≥ n then " wr=1" else " wr=0") else ""
         | _ => ""
-      let how := match o1.st with | .ok => "ok" | .refused => "refused" | .badAlloc => "badalloc"
-      ({ s := s', tainted := tainted },
-       ["B " ++ branchTags al s op,
-        tag ++ showStore s' ++ " ret=" ++ toString o.ret ++ " out=" ++ hexOfBytes o.fetched ++
-          " st=" ++ (if o.st = .ok then "ok" else "fail") ++ " in=1 keep=" ++ keep ++ wr,
-        "M how=" ++ how ++ " news=" ++ toString o.news ++ " dels=" ++ toString o.dels ++
-          " wsz=" ++ toString (s'.get (firstSlot op)).writable ++ " live=" ++ toString (live s')])
+      let how := match a1.how with | .ok => "ok" | .refused => "refused" | .badAlloc => "badalloc"
+      let btags := match m, sc.body with
+        | .list s, [op] => branchTags (fault.alloc 0) s op.toOp
+        | .list s, (.plain (.copyCtor _ i)) :: _ :: rest =>
+            (if rest.isEmpty then "roundtrip " else "roundtrip-append-move ") ++ cloneTag okAl (s.get i) ++
+              (match fault with | .kth 2 => " second-alloc-fault" | .kth 3 => " third-alloc-fault" | _ => "")
+        | _, _ => "fast"
+      let fs := match sc.body with
+        | [op] => firstSlot op.shape
+        | _ => (match ws with | _ :: i :: _ => (slot? i).getD 0 | _ => 0)
+      ({ st with m := m', tainted := tainted },
+       ["B " ++ btags ++ (match fault with | .kth _ => " fault-kth" | _ => "") ++
+          (if ws.any (fun w => (w.splitOn "@").length > 1) then " state-derived-size" else ""),
+        tag ++ showState st m' ++ " ret=" ++ toString a.ret ++ " out=" ++ a.out ++
+          " st=" ++ (if a.how = .ok then "ok" else "fail") ++ " in=1 keep=" ++ keep ++ wr,
+        "M how=" ++ how ++ " news=" ++ toString a.news ++ " dels=" ++ toString a.dels ++
+          " wsz=" ++ toString (m'.ws fs) ++ " live=" ++ toString m'.live])
 
 def main : IO Unit := runDriver ({} : DState) stepLine
